@@ -185,6 +185,14 @@ def pattern_class(m, witness=None):
 
 def shrink_pattern(pat, still):
     cur = pat
+    # candidates are written back from the parse tree (abbreviations expanded), so start from that form too: otherwise every candidate is
+    # longer than the generated text and nothing is ever tried
+    try:
+        norm = ' | '.join(unparse_pattern(a) for a in X.parse_pattern(pat))
+        if still(norm):
+            cur = norm
+    except Exception:
+        pass
     progress = True
     budget = 200
     while progress and budget > 0:
